@@ -15,7 +15,9 @@ for f in sorted(glob.glob(os.path.join(HERE, "seeded", "*", "meta.json"))):
                 first = ln
                 break
     fired = "; ".join("%s: %s" % (k, ", ".join(sorted({x.split(" ")[0] for x in v}))) for k, v in sorted(m["checks_that_fire"].items())) or "none"
-    if m.get("declined"):
+    if m.get("cannot_decide"):
+        fired = "none - CANNOT DECIDE (exit 2, never `holds`): " + m.get("cannot_decide_reason", "")[:260]
+    elif m.get("declined"):
         fired = "none - DECLINED: " + m.get("declined_reason", "")[:200]
     und = ", ".join(sorted(m.get("checks_that_cannot_decide", {}))) or "-"
     rows.append("| %s | %s | %s | %s | %s |" % (m["id"], m["breaks_property"], first.replace("|", "/")[:170], fired, und))
